@@ -27,7 +27,7 @@ def rot(k):
 
 def gen(ctx):
     rng = ctx.rng
-    dts = ["int64", "uint8", "int8", "int32", "list", "masked", "masked_uint8"]
+    dts = ["int64", "uint8", "int8", "int32", "list", "masked", "masked_uint8", "corners", "corners_list"]
     for loop, (_, m) in LOOPS.items():
         for c in range(m):
             yield dict(kind="batch", loop=loop, c=c, m=m)
@@ -119,6 +119,11 @@ def call_loop(obj, key, dtype=None):
         # what evolve2d(..., neighbourhood='von Neumann') hands a rule: corners masked (and holding arbitrary data)
         data = np.array([[7, t, 5], [l, c, r], [8, b, 3]], dtype="uint8" if dtype == "masked_uint8" else "int64")
         n = np.ma.masked_array(data, [[1, 0, 1], [0, 0, 0], [1, 0, 1]])
+    elif dtype in ("corners", "corners_list"):
+        # a Moore block: the four corner cells hold states too (2..8), and must not matter
+        n = [[7, t, 5], [l, c, r], [8, b, 3]]
+        if dtype == "corners":
+            n = np.array(n)
     elif dtype != "list":
         n = np.array(n, dtype=dtype or "int64")
     try:
